@@ -22,6 +22,7 @@ EVIDENCE_DIR = os.path.join(VERIF, "evidence")
 REPLAY_DIR = os.path.join(VERIF, "replays")
 KNOWN_FILE = os.path.join(VERIF, "known_findings.json")
 JOBS = int(os.environ.get("VERIF_JOBS", "16"))
+MAX_REPLAYS = 40
 
 
 @dataclass
@@ -106,12 +107,14 @@ def finish(ctx: Ctx, outcome: Outcome, evidence: Dict[str, Any]) -> int:
         e = h["entry"]
         print(f"KNOWN-FINDING: property={ctx.prop} {e['id']}: {e['what_fails']} (seen {h['count']}x this run)")
     shown = 0
-    for v in outcome.violations:
+    for v in outcome.violations[:MAX_REPLAYS]:
         path = write_replay(ctx.prop, v)
         print(f"VIOLATION property={ctx.prop} replay={path}")
         if shown < 5:
             print("    " + str(v.get("what", ""))[:300])
             shown += 1
+    if len(outcome.violations) > MAX_REPLAYS:
+        print(f"... and {len(outcome.violations) - MAX_REPLAYS} more violations of {ctx.prop} (replay files are written for the first {MAX_REPLAYS})")
     for e in outcome.harness_errors[:10]:
         print(f"HARNESS-ERROR property={ctx.prop} {e[:400]}")
     if outcome.inconclusive:
